@@ -5,6 +5,7 @@ package props
 import (
 	"bytes"
 	"fmt"
+	"sort"
 
 	"github.com/intuitivelabs/sipsp"
 	"pgregory.net/rapid"
@@ -18,6 +19,7 @@ type CaseHdrBlock struct {
 	Typed  bool      `json:"typed"`   // hb = &PHdrVals (typed headers carry type-valid values) / hb = nil
 	HdrCap int       `json:"hdr_cap"` // -1 = nil array
 	CtCap  int       `json:"ct_cap"`
+	Sched  []int     `json:"sched"` // optional chunk schedule (the tokenisation must not depend on it)
 }
 
 func (c CaseHdrBlock) render() ([]byte, []int, []int) {
@@ -53,7 +55,14 @@ func evalHdrBlock(c CaseHdrBlock) Result {
 		kind = KHeaders
 	}
 	st := NewStepper(Cfg{Kind: kind, HdrCap: c.HdrCap, CtCap: c.CtCap, PCap: -1})
-	o, e := st.Step(buf, 0, true)
+	o := 0
+	var e sipsp.ErrorHdr
+	for _, cp := range normSchedule(c.Sched, len(buf)) {
+		o, e = st.Step(buf[:cp:cp], o, false)
+		if e != sipsp.ErrHdrMoreBytes {
+			break
+		}
+	}
 	hdrEnd := len(buf) - len(c.Tail)
 	if e != 0 || o != hdrEnd {
 		return viol("ParseHeaders on a well-formed block of %d headers returned (%d, %v), want (%d, no error)\nblock=%s", len(c.Hdrs), o, e, hdrEnd, B(buf))
@@ -203,6 +212,13 @@ func genHdrBlock(t *rapid.T) CaseHdrBlock {
 	}
 	c.HdrCap = pick(t, "hcap", -1, 0, 1, 2, 5, 10, 64, 64, 64, n, n+1, n-1)
 	c.CtCap = pick(t, "ccap", -1, 0, 1, 10)
+	if rapid.IntRange(0, 2).Draw(t, "chunked") == 0 {
+		k := rapid.IntRange(1, 5).Draw(t, "ncuts")
+		for i := 0; i < k; i++ {
+			c.Sched = append(c.Sched, rapid.IntRange(1, 500).Draw(t, "cut"))
+		}
+		sort.Ints(c.Sched)
+	}
 	// grammar side conditions
 	m := MsgSpec{Hdrs: c.Hdrs, Blank: c.Blank, Body: c.Tail, FL: FLSpec{EOL: B("\r\n")}}
 	fixMsgSpec(&m)
